@@ -24,12 +24,17 @@ type c08Step struct {
 	// compaction: Mode cur | zero | above | sel (any revision between first and current, including below the floor)
 	CMode string `json:"compact,omitempty"`
 	CSel  int    `json:"csel,omitempty"`
+	// CNode: 1 = the compaction is issued on the second node (both nodes have led at some time: the floor is a
+	// property of the store, whichever node raised it)
+	CNode int `json:"cnode,omitempty"`
 	// read: list | stream | count
 	Read   string `json:"read,omitempty"`
 	RevSel int    `json:"revsel,omitempty"`
 	Start  int    `json:"start,omitempty"`
 	End    int    `json:"end,omitempty"`
 	Limit  int    `json:"limit,omitempty"`
+	// Single: the range is exactly one key, [k, k+"\x00") for pool key Start (a point read phrased as a range)
+	Single bool `json:"single,omitempty"`
 	// Node: 1 = the read is served by a second node over the same store (a follower that adopted the leader's revision)
 	Node int `json:"node,omitempty"`
 }
@@ -54,14 +59,16 @@ func genC08(t *rapid.T) interface{} {
 			c.Steps = append(c.Steps, c08Step{
 				CMode: rapid.SampledFrom([]string{"cur", "zero", "above", "sel", "sel", "sel", "sel"}).Draw(t, "cmode"),
 				CSel:  rapid.IntRange(0, 40).Draw(t, "csel"),
+				CNode: rapid.SampledFrom([]int{0, 0, 0, 1}).Draw(t, "cnode"),
 			})
 		default:
 			c.Steps = append(c.Steps, c08Step{
 				Read:   rapid.SampledFrom([]string{"list", "list", "stream", "count"}).Draw(t, "read"),
 				RevSel: rapid.IntRange(-2, 40).Draw(t, "revsel"),
 				Start:  DrawIntn(t, nb, "start"), End: DrawIntn(t, nb, "end"),
-				Limit: rapid.IntRange(0, 3).Draw(t, "limit"),
-				Node:  rapid.SampledFrom([]int{0, 0, 1}).Draw(t, "node"),
+				Limit:  rapid.IntRange(0, 3).Draw(t, "limit"),
+				Single: DrawBool(t, 20, "single"),
+				Node:   rapid.SampledFrom([]int{0, 0, 1}).Draw(t, "node"),
 			})
 		}
 	}
@@ -166,7 +173,13 @@ func runC08(ci interface{}, st *CaseStats) error {
 					req = env.Init + 1 + uint64(s.CSel)%(cur-env.Init)
 				}
 			}
-			resp, err := env.B.Compact(env.Ctx, req)
+			cb := env.B
+			if s.CNode == 1 {
+				second.SetCurrentRevision(cur)
+				cb = second
+				st.Label("compaction-on-second-node")
+			}
+			resp, err := cb.Compact(env.Ctx, req)
 			if err != nil {
 				return fmt.Errorf("step %d: Compact(%d) returned error %v", i, req, err)
 			}
@@ -209,6 +222,15 @@ func runC08(ci interface{}, st *CaseStats) error {
 				rev = env.Init + 1 + uint64(s.RevSel)%(cur-env.Init)
 			}
 			a, b := bounds[s.Start%len(bounds)], bounds[s.End%len(bounds)]
+			if s.Single && s.Read == "stream" {
+				// a streamed range takes internal keys as advertised by the partition listing, not raw bounds
+				s.Read = "list"
+			}
+			if s.Single {
+				a = []byte(FullKey(c.Keys[s.Start%len(c.Keys)]))
+				b = append(append([]byte{}, a...), 0)
+				st.Label("single-key-range")
+			}
 			if bytes.Compare(a, b) > 0 {
 				a, b = b, a
 			}
@@ -322,7 +344,7 @@ func probeC08Lower() (bool, string) {
 
 var specC08 = &Spec{
 	ID:   "C08",
-	Rule: "case = 6..36 steps mixing writes, compaction requests (current, 0, above current, any revision between first and current — hence increasing, repeated and decreasing sequences) and range / streamed-range / count reads at every revision, a third of them served by a second node over the same store that adopted the first node's revision; floor = max effective revision of accepted compactions (response header); non-trivial = a compaction whose effective revision is below the floor, followed by a range read at a revision between that request and the floor; distinct = SHA-1 of the case",
+	Rule: "case = 6..36 steps mixing writes, compaction requests (current, 0, above current, any revision between first and current — hence increasing, repeated and decreasing sequences) and range / streamed-range / count reads at every revision, a third of them served by a second node over the same store that adopted the first node's revision (a quarter of the compactions are issued on that node; a fifth of the ranges are single-key ranges [k, k+NUL)); floor = max effective revision of accepted compactions (response header); non-trivial = a compaction whose effective revision is below the floor, followed by a range read at a revision between that request and the floor; distinct = SHA-1 of the case",
 	Gen:  genC08,
 	New:  func() interface{} { return &c08Case{} },
 	Run:  runC08,
